@@ -26,35 +26,33 @@ Proof.
     [vm_compute; reflexivity|exact H].
 Qed.
 
+Ltac bprop :=
+  repeat match goal with
+  | H : andb _ _ = true |- _ => apply andb_true_iff in H; destruct H
+  | H : andb _ _ = false |- _ => apply andb_false_iff in H; destruct H
+  | H : N.leb _ _ = true |- _ => apply N.leb_le in H
+  | H : N.leb _ _ = false |- _ => apply N.leb_gt in H
+  | H : N.ltb _ _ = true |- _ => apply N.ltb_lt in H
+  | H : N.ltb _ _ = false |- _ => apply N.ltb_ge in H
+  | H : Z.leb _ _ = true |- _ => apply Z.leb_le in H
+  | H : Z.leb _ _ = false |- _ => apply Z.leb_gt in H
+  | H : Z.ltb _ _ = true |- _ => apply Z.ltb_lt in H
+  | H : Z.ltb _ _ = false |- _ => apply Z.ltb_ge in H
+  end.
+Ltac bcases := repeat match goal with |- context[if ?c then _ else _] => destruct c eqn:? end;
+  try reflexivity; bprop; lia.
+
 Lemma link_width v : g_width (Z.of_N v) = Z.of_N (cp_width v).
-Proof.
-  unfold g_width, cp_width.
-  destruct (N.leb_spec v 127), (Z.leb_spec (Z.of_N v) 127); try lia.
-  destruct (N.leb_spec v 2047), (Z.leb_spec (Z.of_N v) 2047); try lia.
-  destruct (N.leb_spec v 65535), (Z.leb_spec (Z.of_N v) 65535); try lia.
-Qed.
+Proof. unfold g_width, cp_width. bcases. Qed.
 
 Lemma link_valid v : g_valid (Z.of_N v) = cp_valid v.
-Proof.
-  unfold g_valid, cp_valid. rewrite Z.gtb_ltb.
-  destruct (N.ltb_spec 1114111 v), (Z.ltb_spec 1114111 (Z.of_N v)); try lia; try reflexivity.
-  destruct (N.leb_spec 55296 v), (Z.leb_spec 55296 (Z.of_N v)); try lia; cbn [andb]; try reflexivity.
-  destruct (N.leb_spec v 57343), (Z.leb_spec (Z.of_N v) 57343); try lia; reflexivity.
-Qed.
+Proof. unfold g_valid, cp_valid. rewrite Z.gtb_ltb. bcases. Qed.
 
 Lemma link_is_first_surrogate x : g_is_first_surrogate (Z.of_N x) = is_first_surrogate x.
-Proof.
-  unfold g_is_first_surrogate, is_first_surrogate.
-  destruct (N.leb_spec 55296 x), (Z.leb_spec 55296 (Z.of_N x)); try lia; cbn [andb]; try reflexivity.
-  destruct (N.leb_spec x 56319), (Z.leb_spec (Z.of_N x) 56319); try lia; reflexivity.
-Qed.
+Proof. unfold g_is_first_surrogate, is_first_surrogate. bcases. Qed.
 
 Lemma link_is_second_surrogate x : g_is_second_surrogate (Z.of_N x) = is_second_surrogate x.
-Proof.
-  unfold g_is_second_surrogate, is_second_surrogate.
-  destruct (N.leb_spec 56320 x), (Z.leb_spec 56320 (Z.of_N x)); try lia; cbn [andb]; try reflexivity.
-  destruct (N.leb_spec x 57343), (Z.leb_spec (Z.of_N x) 57343); try lia; reflexivity.
-Qed.
+Proof. unfold g_is_second_surrogate, is_second_surrogate. bcases. Qed.
 
 (* the escape switch of generic_append: [] (null addon) means the byte is copied *)
 Lemma link_esc1 b : b < 256 ->
@@ -63,4 +61,16 @@ Proof.
   intros H. apply leqb_eq.
   apply (sweep256 (fun b => leqb (zs2ns (g_json_addon (Z.of_N b))) (if leqb (esc1 b) [b] then [] else esc1 b)));
     [vm_compute; reflexivity|exact H].
+Qed.
+
+(* combine_surrogate on the whole surrogate domain (1024 x 1024 points) *)
+Lemma link_combine_surrogate a b : a < 1024 -> b < 1024 ->
+  g_combine_surrogate (Z.of_N (55296 + a)) (Z.of_N (56320 + b)) = Z.of_N (combine_surrogate (55296 + a) (56320 + b)).
+Proof.
+  intros Ha Hb. apply Z.eqb_eq.
+  pose (P := fun a b => Z.eqb (g_combine_surrogate (Z.of_N (55296 + a)) (Z.of_N (56320 + b)))
+                              (Z.of_N (combine_surrogate (55296 + a) (56320 + b)))).
+  assert (H : forallb (fun a => forallb (P a) (N_seq 1024)) (N_seq 1024) = true) by (vm_compute; reflexivity).
+  pose proof (sweep_N 1024 _ H a Ha) as H1. cbv beta in H1.
+  exact (sweep_N 1024 _ H1 b Hb).
 Qed.
